@@ -534,7 +534,11 @@ func (m *monitor) evalDelete(v *sim.View, ev *sim.Event, d *window) {
 		// for THIS policy must have been on the resource at some state of the request, and a
 		// record must be there afterwards
 		if now := attempt(v.Get(d.key)); !d.recorded || now == "" {
-			m.add("O1-refused-without-attempt-record", fmt.Sprintf("the delete was refused but the resource never carried %s=%q during the request (has %q afterwards): %s", attemptAnn, d.want(), now, where))
+			class := fmt.Sprintf("code-%d", d.code)
+			if strings.Contains(d.admErr, "panic") {
+				class = "webhook-panicked"
+			}
+			m.add("O1-refused-without-attempt-record:"+class, fmt.Sprintf("admission answered %q; the delete was refused but the resource never carried %s=%q during the request (has %q afterwards): %s", d.admErr, attemptAnn, d.want(), now, where))
 		}
 	case d.mustAllow:
 		m.cnt["o1_unused_deletes_evaluated"]++
